@@ -432,7 +432,7 @@ pub fn run(ctx: &Ctx, replay: Option<&serde_json::Value>) {
     ctx.extra("exhaustive", json!(false));
     ctx.extra("exhaustive_small_scope_complete", json!(true));
     ctx.run_list("exhaustive", &ex, |c, r| test_case(ctx, c, r));
-    let cases = ctx.tier.pick(20_000, 1_200_000);
+    let cases = ctx.tier.pick(60_000, 1_200_000);
     let cfg = GenCfg {
         max_facts: 4,
         max_rules: 2,
